@@ -178,6 +178,16 @@ Definition op_step (s : state) (t : tid) (fault : bool) : option state :=
       else Some (set_pc (set_att (inc_deletes (set_slot s c (Slot (s_reg sl) None)) c) t 1) t (LoadReg false))
   end.
 
+(** a crash inside the register..save window is counted; a lock held by the crashed thread is
+    released (the storage's staleness rule) *)
+Definition count_crash (s : state) (th : thread) : state :=
+  if in_save_window (t_pc th) then inc_crashes s (t_ca th) else s.
+Definition release (s : state) (t : tid) : state :=
+  match lock s with
+  | Some h => if Nat.eqb h t then set_lock s None else s
+  | None => s
+  end.
+
 Definition step (s : state) (l : label) : option state :=
   match l with
   | Start t c =>
@@ -190,13 +200,7 @@ Definition step (s : state) (l : label) : option state :=
   | Crash t =>
       let th := thr s t in
       if finished (t_pc th) then None
-      else
-        let s1 := if in_save_window (t_pc th) then inc_crashes s (t_ca th) else s in
-        let s2 := match lock s with
-                  | Some h => if Nat.eqb h t then set_lock s1 None else s1
-                  | None => s1
-                  end in
-        Some (set_pc s2 t (Done None))
+      else Some (set_pc (release (count_crash s th) t) t (Done None))
   | Reset c =>
       Some (State (slots s) (created s) (upd (forgotten s) c (created s c)) (lock s) (thr s)
                   (fsaves s) (crashes s) (deletes s) (upd (resets s) c (S (resets s c))))
